@@ -319,7 +319,7 @@ Definition step_engine (cidx0 : bool) (s : state) (t : tid) (e : env) : state :=
           match newest (k_vers (kv s k)) with     (* getLatestInternalVal: tombstones are visible *)
           | None => set_thr s t (PReturn (RespRewrite 0))
           | Some (r, v) =>
-              if (match v with [] => true | _ => false end) || negb (r =? prev)
+              if negb (r =? prev)                  (* retry.go: revisions only; an empty value is a value *)
               then set_thr s t (PReturn (RespRewrite 0))
               else set_thr s t (PRwDeal k prev v)
           end
